@@ -184,6 +184,10 @@ def structure(case, need_protein, need_cell):
             w = md.Trajectory(np.repeat(w.xyz[:1] + 3.0, base.n_frames, axis=0), w.topology)
             base = w.stack(base)
         idx = [int(x) for x in rng.integers(0, base.n_frames, nf)]
+        if nf >= 100:
+            # long trajectories run through the source frames in order (a time series): what the late frames contain
+            # (contacts, hydrogen bonds, turns) has not been seen in any early frame
+            idx = [int(x) for x in np.floor(np.linspace(0, base.n_frames - 1e-9, nf))]
         xyz = base.xyz[idx] + rng.normal(scale=0.0005 if case.get("md_protein") else 0.01, size=(nf, base.n_atoms, 3)).astype(np.float32)
         t = md.Trajectory(xyz.astype(np.float32), base.topology)
     else:
@@ -251,6 +255,8 @@ def guarded(t, junk, rng):
 
 
 # ------------------------------------------------------------------------------------------------ cases
+# frame counts of the second variant: every function meets trajectories of more than 100 and more than 256 frames in every run
+LONGER = [2, 130, 8, 17, 257, 5, 13, 257, 24, 40, 130, 3]
 MD_PROTEIN_FNS = ("compute_dssp", "kabsch_sander", "wernet_nilsson", "compute_contacts", "compute_contacts(ca)", "compute_phi", "compute_chi1")
 
 
@@ -261,7 +267,7 @@ def gen_cases(tier, seed):
         for k, name in enumerate(FUNCTION_NAMES):
             for variant in range(2 if tier == "quick" else 3):
                 rng = common.rng_for("C08", seed, r, k, variant)
-                nf = int([2, 5, 8, 13, 17, 24, 40][int(rng.integers(7))]) if variant else int(rng.integers(1, 9))
+                nf = int(LONGER[(r + k + seed) % len(LONGER)]) if variant else int(rng.integers(1, 9))
                 c = dict(i=i, kind="py", fn=name, seed=common.case_seed(seed, "C08", i), n_frames=nf,
                          source="protein" if (variant == 0 and k % 3 == 0) else "lattice", n_atoms=int(rng.choice([7, 30, 61, 150])),
                          cell=bool(rng.random() < 0.3), cellkind=["ortho", "triclinic", "hex120"][int(rng.integers(3))],
